@@ -44,14 +44,20 @@ def confirm(wt, diff, demo, name, meta, nosuite):
             os.remove(os.path.join(wt, "tests", f))
     tname = "seedcheck_" + re.sub(r"\W", "_", name)
     shutil.copy(demo, os.path.join(wt, "tests", tname + ".rs"))
-    rc0, out0 = sh(f"cargo test --offline --test {tname} 2>&1 | tail -15", cwd=wt)
+    rc0, out0 = sh(f"cargo test --offline --test {tname} 2>&1 | tail -40", cwd=wt)
     ok_clean = "test result: ok" in out0 and "FAILED" not in out0
+    if "--clean-must-not-compile" in sys.argv:
+        # compile-time property: on the clean tree the demonstration must be REJECTED by rustc
+        ok_clean = bool(re.search(r"^error(\[E\d+\])?:", out0, re.M)) and "could not compile" in out0 and "test result" not in out0
+        meta["clean_expectation"] = "demo must be rejected by rustc on the clean tree and compile (and fail at run time) with the change"
     meta["ran"].append({"cmd": f"cargo test --offline --test {tname} (clean tree)", "passed": ok_clean})
     rc, out = sh(f"git apply {diff}", cwd=wt)
     if rc != 0:
         print("patch does not apply:", out); sys.exit(2)
     rc1, out1 = sh(f"cargo test --offline --test {tname} 2>&1 | tail -25", cwd=wt)
     fails = "FAILED" in out1 or "error" in out1.lower() and "test result: ok" not in out1
+    if "--clean-must-not-compile" in sys.argv:
+        fails = "could not compile" not in out1 and ("FAILED" in out1 or "test result" in out1)
     meta["ran"].append({"cmd": f"cargo test --offline --test {tname} (with change)", "failed_as_expected": fails, "tail": out1[-600:]})
     os.remove(os.path.join(wt, "tests", tname + ".rs"))
     suite_ok = None
